@@ -95,6 +95,17 @@ class St:
         s.env[name] = (lo, hi)
         return S(name)
 
+    def fact_index(s):
+        ix = getattr(s, '_fidx', None)
+        if ix is not None and ix[0] is s.facts and ix[1] == len(s.facts):
+            return ix[2]
+        d = {}
+        for fe in s.facts:
+            for k, _ in fe.t:
+                d.setdefault(k, []).append(fe)
+        s._fidx = (s.facts, len(s.facts), d)
+        return d
+
     def live(s):
         L = set(s.pinned)
         for e in s.stack:
@@ -107,6 +118,7 @@ class St:
         return L
 
     def gc(s):
+        s.__dict__.pop('_symc', None)
         L = s.live()
         s.preds = {k: v for k, v in s.preds.items() if k in s.stack or k in s.locs}
         L = s.live()
@@ -116,6 +128,10 @@ class St:
         return s
 
     def retire(s, names, tag):
+        s.__dict__.pop('_symc', None)
+        s._retire(names, tag)
+
+    def _retire(s, names, tag):
         """symbols about to be redefined: older live instances become per-slot symbols (no equalities are kept)"""
         names = set(names)
         if not names:
@@ -140,7 +156,16 @@ class St:
     def rng(s, e, depth=0):
         lo = hi = e.c
         for k, v in e.t:
-            l, h = s.env.get(k, (-INF, INF))
+            if depth == 0 and s.facts and (len(e.t) > 1 or abs(v) != 1):
+                sc = s.__dict__.setdefault('_symc', {})
+                ck = (k, len(s.facts))
+                if ck in sc and sc[ck][2] == s.env.get(k):
+                    l, h = sc[ck][0], sc[ck][1]
+                else:
+                    l, h = s.rng(S(k), 0)        # the symbol's own range, tightened by the facts it occurs in
+                    sc[ck] = (l, h, s.env.get(k))
+            else:
+                l, h = s.env.get(k, (-INF, INF))
             if v > 0:
                 lo += v * l
                 hi += v * h
@@ -154,7 +179,22 @@ class St:
         if depth == 0 and e.t and s.facts:
             et = e.t
             nt = tuple((k, -v) for k, v in et)
-            for fe, (fl, fh) in s.facts.items():
+            idx = s.fact_index()
+            if len(et) == 1:
+                cands = idx.get(et[0][0], ())
+            else:
+                cands = []
+                seen_f = set()
+                for k, _ in et:
+                    for fe in idx.get(k, ()):
+                        if id(fe) not in seen_f:
+                            seen_f.add(id(fe))
+                            cands.append(fe)
+            for fe in cands:
+                fb = s.facts.get(fe)
+                if fb is None:
+                    continue
+                fl, fh = fb
                 if fe.t == et:
                     d = e.c - fe.c
                     lo = max(lo, d + fl)
@@ -194,6 +234,7 @@ class St:
 
     def refine(s, e, lo=-INF, hi=INF):
         """intersect; returns False if infeasible"""
+        s.__dict__.pop('_symc', None)
         if e.isconst():
             return lo <= e.c <= hi
         if len(e.t) == 1 and abs(e.t[0][1]) == 1:
@@ -284,11 +325,12 @@ class Event:
 
 
 class Interp:
-    def __init__(self, prog, pins=None, native_models=None, max_visits=80):
+    def __init__(self, prog, pins=None, native_models=None, max_visits=80, field_ranges=None):
         self.p = prog
         self.eff = prog.native_effects()
         self.pins = pins or {}          # native name -> constant result(s) pushed
         self.models = native_models or {}
+        self.field_ranges = field_ranges or {}     # context offset -> (lo, hi) of the byte/half-word stored there (justified invariants)
         self.evmap = {}
         self.banned = {}
         self.cur = [None]
@@ -429,13 +471,23 @@ class Interp:
         moved = [k for k in range(len(xs)) if xs[k] != ys[k]]
         pair_facts = {}
         banned = self.banned.setdefault((self.cur[-1], w, pc), set())
-        if 1 <= len(moved) <= 8 and len(xs) <= 14:
+        if 1 <= len(moved) <= 10 and len(xs) <= 48:
             nonconst = [k for k in range(len(xs)) if not (xs[k].isconst() and ys[k].isconst() and xs[k] == ys[k])]
+            if len(nonconst) > 16:
+                mv = set(moved)
+                nonconst = [k for k in nonconst if k in mv] + [k for k in nonconst if k not in mv][-(16 - min(16, len(mv))):]
             for i_ in moved:
                 for j_ in nonconst:
-                    if j_ == i_ or (j_ in moved and j_ < i_):
+                    if j_ == i_:
                         continue
-                    for sg in (1, -1):
+                    coefs = [1, -1]
+                    if j_ in moved:
+                        di, dj = ys[i_] - xs[i_], ys[j_] - xs[j_]
+                        if di.isconst() and dj.isconst() and di.c and dj.c and abs(di.c) != abs(dj.c):
+                            # slots advancing by different constant strides (pointer += 2, count -= 1)
+                            if di.c % dj.c == 0 and abs(di.c // dj.c) <= 8:
+                                coefs.append(-(di.c // dj.c))
+                    for sg in coefs:
                         ez = zs[i_] + zs[j_].scale(sg)
                         if ez.isconst() or ez in pair_facts or ez in banned:
                             continue
@@ -444,9 +496,12 @@ class Interp:
                         l, h = min(l1, l2), max(h1, h2)
                         # keep only what plain interval arithmetic on the joined slots would not give
                         (li, hi_), (lj, hj) = n.rng(zs[i_], 1), n.rng(zs[j_], 1)
-                        il, ih = (li + lj, hi_ + hj) if sg == 1 else (li - hj, hi_ - lj)
-                        if l > il or h < ih:
-                            pair_facts[ez] = (l if l > il else -INF, h if h < ih else INF)
+                        il, ih = (li + sg * lj, hi_ + sg * hj) if sg > 0 else (li + sg * hj, hi_ + sg * lj)
+                        BIG = 1 << 30
+                        kl = l if (l > il and abs(l) < BIG) else -INF
+                        kh = h if (h < ih and abs(h) < BIG) else INF
+                        if kl > -INF or kh < INF:
+                            pair_facts[ez] = (kl, kh)
         # shared symbols: interval hull
         for k in list(n.env):
             if k in a.env and k in b.env and not k.startswith('j%d.%d.' % (w, pc)):
@@ -477,10 +532,14 @@ class Interp:
                     banned.add(e)       # a relation that did not hold up is not proposed again at this point
             if nl > -INF or nh < INF:
                 nf[e] = (nl, nh)
-        for ez, (l, h) in pair_facts.items():
+        room = 60 - len(nf)
+        for ez, (l, h) in sorted(pair_facts.items(), key=lambda kv: (kv[1][0] == -INF) + (kv[1][1] == INF)):
+            if room <= 0:
+                break
             if (l > -INF or h < INF) and ez not in a.facts and ez not in banned:
                 nf[ez] = (l, h)
                 changed = True
+                room -= 1
         n.facts = nf
         n.preds = {k: v for k, v in a.preds.items() if b.preds.get(k) == v}
         if len(n.preds) != len(a.preds):
@@ -844,7 +903,10 @@ class Interp:
             a = pop()
             self.emit(Event(w, pc, name, [a], st.clone(), ctx))
             hi = {'get8': 255, 'get16': 65535, 'get32': HI32}[name]
-            r = unknown(0, hi)
+            lo = 0
+            if a.isconst() and a.c in self.field_ranges:
+                lo, hi = self.field_ranges[a.c]
+            r = unknown(lo, hi)
             push(r)
         elif name in ('set8', 'set16', 'set32'):
             a = pop(); v = pop()
